@@ -725,3 +725,87 @@ pub fn gen_layered(r: &mut Rng) -> Case {
     }
     Case { program: p, ops }
 }
+
+// ------------------------------------------------------------------------------------------
+// state digest (state-level tie of C01/C03): the engine's persistent bookkeeping of every key of the
+// program, read through the read-only `qbice::verif::dump_node` hook and mapped back to integer keys.
+// The Lean driver prints the same digest from the model state (`digest` in Driver/Engine.lean).
+// ------------------------------------------------------------------------------------------
+
+#[cfg(qbice_verif)]
+pub fn key_query_id(p: &Program, k: u32) -> qbice::query::QueryID {
+    use qbice::{query::QueryID, stable_hash::{BuildStableHasher, SeededStableHasherBuilder, Sip128Hasher, StableHasher}};
+    fn h<Q: StableHash>(q: &Q) -> qbice::stable_hash::Compact128 {
+        let mut h = SeededStableHasherBuilder::<Sip128Hasher>::new(0).build_stable_hasher();
+        q.stable_hash(&mut h);
+        h.finish().into()
+    }
+    match p.kind(k) {
+        Kind::Input => QueryID::new::<In>(h(&In(k))),
+        Kind::Normal => QueryID::new::<Nm>(h(&Nm(k))),
+        Kind::Firewall => QueryID::new::<Fw>(h(&Fw(k))),
+        Kind::Projection => QueryID::new::<Pj>(h(&Pj(k))),
+        Kind::External => QueryID::new::<Ex>(h(&Ex(k))),
+    }
+}
+
+/// One line: for every key (ascending) that has a node,
+/// `k:kind:v<0|1>:val=<stored value>:deps=[a,{b,c},d]:obs=[a,b!,c^]:dirty=[..]:tfc=[..]:pend=<0|1>:back=[..]`, joined by ` ; `.
+/// `v1` = last_verified equals the current timestamp; `deps` in recorded order, `{..}` = unordered group (members in
+/// recorded order); `obs` = callees with a recorded observation (sorted), `!` = the observed value fingerprint differs from
+/// the callee's current one, `^` = the observed firewall-set fingerprint differs from the callee's current one;
+/// `dirty` = every key c such that the edge (k,c) is in the dirty set (recorded forward edge or not); `back` = callers.
+/// A QueryID that is not a key of the program prints as `?`.
+#[cfg(qbice_verif)]
+pub async fn state_digest<C: Config>(engine: &Arc<Engine<C>>, p: &Program) -> String {
+    use qbice::verif::{DumpDependency, dump_node, current_timestamp, is_edge_dirty, stored_value};
+    let n = p.nodes.len() as u32;
+    let ids: Vec<qbice::query::QueryID> = (0..n).map(|k| key_query_id(p, k)).collect();
+    let rev: std::collections::HashMap<qbice::query::QueryID, u32> = ids.iter().enumerate().map(|(k, id)| (*id, k as u32)).collect();
+    let name = |id: &qbice::query::QueryID| rev.get(id).map(|k| k.to_string()).unwrap_or_else(|| "?".into());
+    let sorted = |v: &[qbice::query::QueryID]| { let mut ks: Vec<(u32, String)> = v.iter().map(|id| (rev.get(id).copied().unwrap_or(u32::MAX), name(id))).collect(); ks.sort(); ks.into_iter().map(|x| x.1).collect::<Vec<_>>().join(",") };
+    let now = current_timestamp(engine);
+    let mut dumps = vec![];
+    for k in 0..n { dumps.push(dump_node(engine, &ids[k as usize]).await); }
+    let mut parts = vec![];
+    for k in 0..n {
+        let Some(d) = &dumps[k as usize] else { continue };
+        let kind = match d.kind { None => "?", Some(None) => "in", Some(Some(ExecutionStyle::Normal)) => "nm", Some(Some(ExecutionStyle::Firewall)) => "fw",
+            Some(Some(ExecutionStyle::Projection)) => "pj", Some(Some(ExecutionStyle::ExternalInput)) => "ex" };
+        let id = &ids[k as usize];
+        let val = match p.kind(k) {
+            Kind::Input => stored_value::<C, In>(engine, id).await, Kind::Normal => stored_value::<C, Nm>(engine, id).await,
+            Kind::Firewall => stored_value::<C, Fw>(engine, id).await, Kind::Projection => stored_value::<C, Pj>(engine, id).await,
+            Kind::External => stored_value::<C, Ex>(engine, id).await };
+        let deps = d.forward_edges.as_ref().map(|f| f.iter().map(|dep| match dep {
+            DumpDependency::Single(x) => name(x),
+            DumpDependency::Unordered(xs) => format!("{{{}}}", xs.iter().map(|x| name(x)).collect::<Vec<_>>().join(",")),
+        }).collect::<Vec<_>>().join(",")).unwrap_or_else(|| "-".into());
+        let obs = match &d.observations {
+            None => "-".to_string(),
+            Some(os) => {
+                let mut v: Vec<(u32, String)> = vec![];
+                for o in os {
+                    let ck = rev.get(&o.callee).copied();
+                    let cd = ck.and_then(|c| dumps[c as usize].as_ref());
+                    let mut s = name(&o.callee);
+                    if cd.and_then(|c| c.value_fingerprint) != Some(o.seen_value_fingerprint) { s.push('!'); }
+                    if cd.and_then(|c| c.transitive_firewall_callees_fingerprint) != Some(o.seen_transitive_firewall_callees_fingerprint) { s.push('^'); }
+                    v.push((ck.unwrap_or(u32::MAX), s));
+                }
+                v.sort();
+                v.into_iter().map(|x| x.1).collect::<Vec<_>>().join(",")
+            }
+        };
+        let mut dirty = vec![];
+        for c in 0..n { if is_edge_dirty(engine, id, &ids[c as usize]).await { dirty.push(c.to_string()); } }
+        parts.push(format!("{k}:{kind}:v{}:val={}:deps=[{deps}]:obs=[{obs}]:dirty=[{}]:tfc=[{}]:pend={}:back=[{}]",
+            if d.last_verified == Some(now) { 1 } else { 0 },
+            val.map(|v| v.to_string()).unwrap_or_else(|| "-".into()),
+            dirty.join(","),
+            d.transitive_firewall_callees.as_ref().map(|t| sorted(t)).unwrap_or_else(|| "-".into()),
+            if d.pending_backward_projection.is_some() { 1 } else { 0 },
+            sorted(&d.backward_edges)));
+    }
+    parts.join(" ; ")
+}
